@@ -278,7 +278,8 @@ func c18Alias(c *Check) {
 		for _, in := range p.liveInstrsOf(fn) {
 			switch x := in.(type) {
 			case *ssa.Return:
-				for _, r := range x.Results {
+				for ri := range x.Results {
+					r := fi.RetVal(x, ri)
 					if _, isSl := r.Type().Underlying().(*types.Slice); !isSl {
 						continue
 					}
